@@ -201,6 +201,15 @@ func replayBatchFromChan(clck clock.Clock, batches <-chan edge.BufferedBatchMess
 				b.Begin().SetTime(tmax)
 			} else {
 				tmax = b.Begin().Time().UTC()
+				if !recTime {
+					if start.IsZero() {
+						// No point seen yet: the replay starts at this batch.
+						start = tmax
+						diff = zero.Sub(start)
+					}
+					// Shift tmax by the same offset as the points.
+					tmax = tmax.Add(diff).UTC()
+				}
 				b.Begin().SetTime(tmax)
 			}
 			if err := collector.CollectBatch(b); err != nil {
@@ -219,6 +228,10 @@ func replayBatchFromChan(clck clock.Clock, batches <-chan edge.BufferedBatchMess
 				points[i].SetTime(points[i].Time().Add(diff).UTC())
 			}
 			lastTime = points[len(points)-1].Time()
+			if t := b.Begin().Time(); !t.IsZero() {
+				// Shift tmax by the same offset as the points.
+				b.Begin().SetTime(t.Add(diff).UTC())
+			}
 		} else {
 			lastTime = points[len(points)-1].Time().Add(diff).UTC()
 		}
